@@ -190,6 +190,14 @@ def compile_correspondence(ctx, res, programs, full=True, full_cap=4000, blocks=
     if not cases:
         return []
     outs = ctx.model(["(compile %s)" % c[3] for c in cases])
+    # which cases fall in the fragment F1 of the theorem compile_denotes (Encode/CodeSem.in_f1)
+    try:
+        frag = ctx.model(["(inf1 %s)" % c[3] for c in cases])
+    except Exception:  # noqa
+        frag = ["?"] * len(cases)
+    fr = res.extra.setdefault("fragment_F1", {"in": 0, "out": 0})
+    for x in frag:
+        fr["in" if x == "true" else "out"] += 1
     mism = []
     stats = res.extra.setdefault("compile_corr", {"literal": 0, "canonical": 0, "model-only": 0, "mismatch": 0,
                                                   "real_errors": {}, "constraint_classes": {}})
